@@ -591,6 +591,9 @@ Section RA.
   Qed.
 End RA.
 
+Lemma phase_eq_dec (p q : phase) : {p = q} + {p <> q}.
+Proof. decide equality. Qed.
+
 (* ================================================================== ops outside the dispatch *)
 Section OpFrames.
   Context {T : Type}.
@@ -804,12 +807,13 @@ Section OpFrames.
     m_close_called m' = m_close_called m ->
     (forall j, In j (m_polled m') -> j <> i -> In j (m_polled m)) ->
     OpFr s s' i ->
-    (forall j c, In j (m_polled m) -> nth_error (calls s) j = Some c -> c_id c < next_id s) ->
+    (forall j c, j <> i -> In j (m_polled m) -> nth_error (calls s) j = Some c ->
+                 rxc s (c_id c) -> rxc s' (c_id c)) ->
     ARi m' s' i ->
     (m_close_called m = true -> senders s' = 0%nat /\ queue s' = [] /\ cancels s' = []) ->
     RA m s -> RA m' s'.
   Proof.
-    intros M1 M2 M3 M4 M5 Hpol F Hlt Hi Hcc R. destruct F.
+    intros M1 M2 M3 M4 M5 Hpol F Hrx Hi Hcc R. destruct F.
     assert (Hc : forall id, cancelled m' id = cancelled m id) by (intro; unfold cancelled; rewrite M2; reflexivity).
     assert (He : forall sr, ended m' sr = ended m sr)
       by (intro; unfold ended, read_any_after; rewrite M3, M4; reflexivity).
@@ -825,12 +829,398 @@ Section OpFrames.
     - intros j c' Hc' Hp Hpj. destruct (Nat.eq_dec j i) as [->|Hn].
       + apply (Hi c' Hc' Hpj); assumption.
       + destruct (of_calls0 j c' Hn Hc') as (c & Hc0 & Eid & Pp).
-        rewrite Eid. apply of_rxc0; [apply (Hlt j c (Hpol j Hpj Hn) Hc0)|].
+        rewrite Eid. apply (Hrx j c Hn (Hpol j Hpj Hn) Hc0).
         apply (ra_rxc _ _ R j c Hc0); [|apply Hpol; assumption].
         destruct Pp as [Pp|[_ Pp]]; [rewrite <- Pp; exact Hp|].
         destruct Hp as [Hp|Hp]; rewrite Hp in Pp; discriminate.
     - apply (ra_ti _ _ R).
     - exact Hcc.
+  Qed.
+
+  Lemma Hrx_of_OpFr m s s' i :
+    sim m s -> OpFr s s' i ->
+    forall j c, j <> i -> In j (m_polled m) -> nth_error (calls s) j = Some c ->
+                rxc s (c_id c) -> rxc s' (c_id c).
+  Proof.
+    intros [C _ _] F j c _ Hp Hc. apply (of_rxc _ _ _ F).
+    pose proof (sc_id _ _ C j c Hc Hp) as Hid.
+    destruct (id_of_bound m j _ (sc_nowrap _ _ C) Hid) as [_ H]. rewrite (sc_next _ _ C). exact H.
+  Qed.
+
+  (* ---------------------------------------------------------------- call i after the op *)
+  Lemma poll_call_dead s i :
+    (forall c, nth_error (calls s) i = Some c -> live_phase (c_phase c) = false \/ c_phase c = PClosing) ->
+    poll_call s i = (CNothing, s).
+  Proof.
+    intro H. unfold poll_call. destruct (nth_error (calls s) i) as [c|]; [|reflexivity].
+    destruct (H c eq_refl) as [H'|H']; destruct (c_phase c); try discriminate; reflexivity.
+  Qed.
+
+  Lemma phl_set_phase_self s i p :
+    phl (calls (set_phase s i p)) i = match phl (calls s) i with Some _ => Some p | None => None end.
+  Proof.
+    rewrite set_phase_alt. cbn [calls upd_calls]. rewrite phl_phase_calls, Nat.eqb_refl.
+    destruct (phl (calls s) i); reflexivity.
+  Qed.
+
+  Definition fresh_phase (o : option phase) : Prop :=
+    o = None \/ o = Some PDone \/ o = Some PAcquiring \/ o = Some PAwaiting.
+
+  Lemma fresh_set_phase s i p :
+    p = PDone \/ p = PAcquiring \/ p = PAwaiting -> fresh_phase (phl (calls (set_phase s i p)) i).
+  Proof.
+    intro Hp. rewrite phl_set_phase_self. unfold fresh_phase.
+    destruct (phl (calls s) i); [|tauto]. destruct Hp as [Hp|[Hp|Hp]]; subst p; tauto.
+  Qed.
+
+  Lemma poll_slot_phase s i id :
+    phl (calls s) i = Some PAwaiting \/ phl (calls s) i = None ->
+    fresh_phase (phl (calls (snd (poll_slot s i id))) i).
+  Proof.
+    intro H. unfold poll_slot.
+    assert (K : fresh_phase (phl (calls (set_phase (slot_rx_close s id) i PDone)) i))
+      by (apply fresh_set_phase; tauto).
+    destruct (sl_val _); cbn [snd]; [exact K|]. destruct (sl_tx_gone _); cbn [snd]; [exact K|].
+    unfold fresh_phase. tauto.
+  Qed.
+
+  Lemma poll_call_phase s i r s' :
+    poll_call s i = (r, s') -> s' = s \/ fresh_phase (phl (calls s') i).
+  Proof.
+    unfold poll_call. destruct (nth_error (calls s) i) as [c|] eqn:Ec; [|intros [= _ <-]; left; reflexivity].
+    pose proof (phl_nth _ _ _ Ec) as Hph.
+    assert (FS : forall (st : cstate) id, fresh_phase (phl (calls (snd (fail_shutdown st i id))) i)).
+    { intros st id. unfold fail_shutdown. cbn [snd]. apply fresh_set_phase. tauto. }
+    assert (EQ : forall (st : cstate) cc id tc, phl (calls st) i <> None ->
+               fresh_phase (phl (calls (snd (enqueue st i cc id tc))) i)).
+    { intros st cc id tc Hn. unfold enqueue. apply poll_slot_phase. left.
+      rewrite phl_set_phase_self. cbn [calls upd_q]. destruct (phl (calls st) i); [reflexivity|congruence]. }
+    destruct (c_phase c) eqn:Ep; try (intros [= _ <-]; left; reflexivity).
+    - set (s1 := set_slot _ (next_id s) slot0).
+      assert (P1 : phl (calls s1) i <> None).
+      { unfold s1, set_slot, with_id. cbn [calls upd_slots upd_calls upd_misc].
+        rewrite phl_set_nth by (apply nth_error_Some; congruence). rewrite Nat.eqb_refl. discriminate. }
+      destruct (rx_closed s1).
+      + intro H. right. replace s' with (snd (fail_shutdown s1 i (next_id s))) by (rewrite H; reflexivity). apply FS.
+      + destruct (permits s1).
+        * intros [= _ <-]. right. apply fresh_set_phase. tauto.
+        * intro H. right.
+          match type of H with enqueue ?st _ ?cc ?id ?tc = _ =>
+            replace s' with (snd (enqueue st i cc id tc)) by (rewrite H; reflexivity); apply EQ end.
+          exact P1.
+    - destruct (rx_closed s).
+      + intro H. right.
+        match type of H with fail_shutdown ?st _ ?id = _ =>
+          replace s' with (snd (fail_shutdown st i id)) by (rewrite H; reflexivity); apply FS end.
+      + intro H. right.
+        match type of H with enqueue ?st _ ?cc ?id ?tc = _ =>
+          replace s' with (snd (enqueue st i cc id tc)) by (rewrite H; reflexivity); apply EQ end.
+        congruence.
+    - intro H. right. replace s' with (snd (fail_shutdown s i (c_id c))) by (rewrite H; reflexivity). apply FS.
+    - intro H. right. replace s' with (snd (poll_slot s i (c_id c))) by (rewrite H; reflexivity).
+      apply poll_slot_phase. left. exact Hph.
+  Qed.
+
+  Lemma polled_poll_call m s i c :
+    sim m s -> nth_error (calls s) i = Some c -> c_phase c <> PNew ->
+    m_polled (rec_op (T:=T) m (PollCall i)) = m_polled m.
+  Proof.
+    intros [C _ _] Hc Hn. pose proof (sc_phase _ _ C i c Hc) as [Dp Da Dc Dd].
+    cbn [rec_op m_polled upd_m]. rewrite Da, Dc.
+    destruct (c_phase c); try congruence; cbn [ph_polled ph_aband ph_closing] in *;
+      try (rewrite (Dp _ eq_refl)); cbn; rewrite ?orb_true_r; reflexivity.
+  Qed.
+
+  Lemma ARi_poll_call m s i r s' :
+    sim m s -> RA m s -> poll_call s i = (r, s') -> ARi (rec_op (T:=T) m (PollCall i)) s' i.
+  Proof.
+    intros S R H c' Hc' Hp.
+    destruct (poll_call_phase _ _ _ _ H) as [->|Hf].
+    - destruct (phase_eq_dec (c_phase c') PNew) as [E|E].
+      + split; intros Hph; [congruence|destruct Hph; congruence].
+      + rewrite (polled_poll_call m s i c' S Hc' E) in Hp. apply (RA_ARi m s i R c' Hc' Hp).
+    - pose proof (phl_nth _ _ _ Hc') as Hph. rewrite Hph in Hf.
+      unfold fresh_phase in Hf.
+      split; intros Hx; exfalso; [|destruct Hx as [Hx|Hx]]; rewrite Hx in Hf;
+        destruct Hf as [Hf|[Hf|[Hf|Hf]]]; discriminate Hf.
+  Qed.
+
+  Lemma nth_set_phase_self s i p c :
+    nth_error (calls s) i = Some c -> nth_error (calls (set_phase s i p)) i = Some (with_phase c p).
+  Proof.
+    intro H. rewrite set_phase_alt. cbn [calls upd_calls]. rewrite nth_error_phase_calls, Nat.eqb_refl, H.
+    reflexivity.
+  Qed.
+
+  Lemma rxc_after_close s id : rxc (slot_rx_close s id) id.
+  Proof.
+    unfold rxc, slot_rx_close, set_slot. cbn [slots upd_slots]. rewrite slotv_aset, N.eqb_refl. reflexivity.
+  Qed.
+
+  Lemma ARi_guard_close m s i : sim m s -> RA m s -> ARi m (guard_close s i) i.
+  Proof.
+    intros S R c' Hc' Hp. revert Hc'. unfold guard_close.
+    destruct (nth_error (calls s) i) as [c|] eqn:Ec; [|intro H; exact (RA_ARi m s i R c' H Hp)].
+    pose proof (sc_phase _ _ (sim_c _ _ S) i c Ec) as [Dp _ _ _].
+    assert (K : forall (st : cstate), nth_error (calls st) i = Some (with_phase c PClosing) ->
+              rxc st (c_id c) -> nth_error (calls st) i = Some c' ->
+              (c_phase c' = PGone -> In (c_id c') (map fst (inflight st)) ->
+               In (c_id c') (cancels st) \/ dropped st = true) /\
+              (c_phase c' = PClosing \/ c_phase c' = PGone -> rxc st (c_id c'))).
+    { intros st H1 H2 H3. rewrite H1 in H3. injection H3 as <-. cbn [c_phase c_id with_phase].
+      split; [discriminate|intros _; exact H2]. }
+    destruct (c_phase c) eqn:Ep; try (intro H; exact (RA_ARi m s i R c' H Hp)).
+    - exfalso. pose proof (Dp false eq_refl) as H. apply mem_nat_In in Hp. congruence.
+    - apply K.
+      + apply nth_set_phase_self. exact Ec.
+      + rewrite set_phase_alt. apply rxc_after_close.
+    - apply K.
+      + unfold slot_rx_close, slot_tx_drop, set_slot. cbn [calls upd_slots].
+        assert (H1 : nth_error (calls (set_phase s i PClosing)) i = Some (with_phase c PClosing))
+          by (apply nth_set_phase_self; exact Ec).
+        destruct (rx_closed (set_phase s i PClosing)); [exact H1|].
+        unfold release_permit. destruct (waiters (set_phase s i PClosing)) as [|w r] eqn:Ew; [exact H1|].
+        rewrite set_phase_alt. cbn [calls upd_calls upd_q]. rewrite nth_error_phase_calls.
+        destruct (Nat.eqb w i) eqn:E; [|exact H1]. exfalso. apply Nat.eqb_eq in E. subst w.
+        rewrite set_phase_alt in Ew. cbn [waiters upd_calls] in Ew.
+        destruct (w_acq _ (sim_w _ _ S) i) as (cw & Hcw & Hpw); [rewrite Ew; left; reflexivity|]. congruence.
+      + apply rxc_after_close.
+    - apply K.
+      + apply nth_set_phase_self. exact Ec.
+      + rewrite set_phase_alt. apply rxc_after_close.
+    - apply K.
+      + apply nth_set_phase_self. exact Ec.
+      + rewrite set_phase_alt. apply rxc_after_close.
+  Qed.
+
+  Lemma ARi_guard_cancel m s i : RA m s -> ARi m (guard_cancel s i) i.
+  Proof.
+    intros R c' Hc' Hp. revert Hc'. unfold guard_cancel.
+    destruct (nth_error (calls s) i) as [c|] eqn:Ec; [|intro H; exact (RA_ARi m s i R c' H Hp)].
+    destruct (c_phase c) eqn:Ep; try (intro H; exact (RA_ARi m s i R c' H Hp)).
+    intro H. rewrite (nth_set_phase_self (push_cancel s (c_id c)) i PGone c) in H
+      by (rewrite push_cancel_alt; exact Ec).
+    injection H as <-. cbn [c_phase c_id with_phase]. rewrite set_phase_alt, push_cancel_alt.
+    cbn [cancels inflight dropped upd_calls upd_cancels]. split.
+    - intros _ _. destruct (dropped s); [right; reflexivity|left; apply in_or_app; right; left; reflexivity].
+    - intros _. apply (ra_rxc _ _ R i c Ec); [left; exact Ep|exact Hp].
+  Qed.
+
+  (* ---------------------------------------------------------------- with no sender left nothing moves *)
+  Variable tp : transport T cmsg resp.
+  Variable fuel_of : cstate -> nat.
+  Notation op := (@op T).
+
+  Lemma senders_app s c :
+    senders (upd_calls s (calls s ++ [c])) = (senders s + if live_phase (c_phase c) then 1 else 0)%nat.
+  Proof.
+    unfold senders. cbn [handles calls upd_calls]. rewrite filter_app, app_length. cbn [filter].
+    destruct (live_phase (c_phase c)); cbn [length]; lia.
+  Qed.
+
+  Lemma cc_step s (o : op) :
+    senders s = 0%nat -> queue s = [] -> cancels s = [] -> o <> PollDispatch -> o <> DropDispatch ->
+    senders (fst (step tp fuel_of s o)) = 0%nat /\ queue (fst (step tp fuel_of s o)) = [] /\
+    cancels (fst (step tp fuel_of s o)) = [].
+  Proof.
+    intros Hs Hq Hc N1 N2. destruct (senders0 s Hs) as [Hh Hl].
+    assert (Hdead : forall i c, nth_error (calls s) i = Some c -> c_phase c = PDone \/ c_phase c = PGone).
+    { intros i c H. pose proof (Hl c (nth_error_In _ _ H)) as L. destruct (c_phase c); try discriminate; auto. }
+    destruct o; cbn [step fst]; try congruence.
+    - destruct (nth_error (handles s) h) as [[|]|] eqn:E; auto.
+      exfalso. pose proof (Hh true (nth_error_In _ _ E)). discriminate.
+    - destruct (nth_error (handles s) h) as [[|]|] eqn:E; auto.
+      exfalso. pose proof (Hh true (nth_error_In _ _ E)). discriminate.
+    - destruct (nth_error (handles s) h) as [[|]|] eqn:E;
+        [exfalso; pose proof (Hh true (nth_error_In _ _ E)); discriminate|..];
+        rewrite senders_app; cbn [c_phase live_phase queue cancels upd_calls]; (split; [lia|auto]).
+    - rewrite poll_call_dead; [auto|]. intros c H. left. apply Hl. eapply nth_error_In, H.
+    - destruct (nth_error (calls s) i) as [c|] eqn:E; cbn [option_map].
+      + destruct (Hdead i c E) as [P|P]; rewrite P; unfold guard_cancel, guard_close; rewrite E, P, E, P; auto.
+      + rewrite guard_close_none, guard_cancel_none by exact E. auto.
+    - destruct (nth_error (calls s) i) as [c|] eqn:E; cbn [option_map].
+      + destruct (Hdead i c E) as [P|P]; rewrite P; unfold guard_close; rewrite E, P; auto.
+      + rewrite guard_close_none by exact E. auto.
+    - destruct (nth_error (calls s) i) as [c|] eqn:E.
+      + destruct (Hdead i c E) as [P|P]; unfold guard_cancel; rewrite E, P; auto.
+      + rewrite guard_cancel_none by exact E. auto.
+    - auto.
+    - auto.
+  Qed.
+
+  (* ---------------------------------------------------------------- the observer across an op *)
+  Variable maxif : nat.
+
+  Ltac rec_op_frame o :=
+    destruct o; cbn [rec_op];
+    repeat match goal with |- context [match ?x with _ => _ end] => destruct x end; reflexivity.
+  Lemma rec_op_read m (o : op) : m_read (rec_op m o) = m_read m.
+  Proof. rec_op_frame o. Qed.
+  Lemma rec_op_polled m (o : op) : (forall i, o <> PollCall i) -> m_polled (rec_op m o) = m_polled m.
+  Proof.
+    intro H. destruct o; cbn [rec_op];
+      repeat match goal with |- context [match ?x with _ => _ end] => destruct x end; try reflexivity.
+    all: exfalso; eapply H; reflexivity.
+  Qed.
+  Lemma rec_op_now_le m (o : op) : m_now m <= m_now (rec_op m o).
+  Proof.
+    destruct o; cbn [rec_op];
+      repeat match goal with |- context [match ?x with _ => _ end] => destruct x end; cbn; lia.
+  Qed.
+
+  Record MFr (m m' : mst) : Prop := {
+    mf_sent : m_sent m' = m_sent m;
+    mf_cancels : m_cancels m' = m_cancels m;
+    mf_read : m_read m' = m_read m;
+    mf_cc : m_close_called m' = m_close_called m }.
+
+  Lemma MFr_rec_op m (o : op) : MFr m (rec_op m o).
+  Proof.
+    constructor; [apply rec_op_sent|apply rec_op_cancels|apply rec_op_read|apply rec_op_close_called].
+  Qed.
+
+  Lemma chk_obs_mframe (o : op) m os :
+    o <> PollDispatch ->
+    MFr m (snd (chk_obs maxif o m os)) /\
+    m_polled (snd (chk_obs maxif o m os)) = m_polled (rec_op m o) /\
+    m_now (snd (chk_obs maxif o m os)) = m_now (rec_op m o).
+  Proof.
+    intro N. pose proof (MFr_rec_op m o) as [F1 F2 F3 F4].
+    assert (K : forall v, MFr m (snd (v : verdicts, rec_op m o)) /\
+              m_polled (snd (v, rec_op m o)) = m_polled (rec_op m o) /\
+              m_now (snd (v, rec_op m o)) = m_now (rec_op m o)).
+    { intro v. cbn [snd]. split; [constructor; assumption|split; reflexivity]. }
+    unfold chk_obs. destruct o; try congruence; try (destruct os as [|? ?]; apply K).
+    destruct os as [|[| |[|out|]| | |] [|? ?]]; try apply K.
+    cbn [snd]. split; [constructor; assumption|split; reflexivity].
+  Qed.
+
+  (* ---------------------------------------------------------------- RA across an op that leaves the call table alone *)
+  Lemma RA_env m m' s s' :
+    MFr m m' -> m_polled m' = m_polled m -> m_now m <= m_now m' ->
+    calls s' = calls s -> inflight s' = inflight s -> timers s' = timers s -> slots s' = slots s ->
+    queue s' = queue s -> cancels s' = cancels s -> terminal s' = terminal s -> dropped s' = dropped s ->
+    (m_close_called m = true -> senders s' = 0%nat) ->
+    RA m s -> RA m' s'.
+  Proof.
+    intros [M1 M2 M3 M4] Mp Mn E1 E3 E4 E5 E6 E7 E8 E9 Hs [].
+    assert (Hc : forall id, cancelled m' id = cancelled m id) by (intro; unfold cancelled; rewrite M2; reflexivity).
+    constructor; rewrite ?M1, ?M4, ?Mp, ?E1, ?E3, ?E4, ?E5, ?E6, ?E7, ?E8, ?E9; try assumption.
+    - intros sr Hsr. rewrite Hc. destruct (ra_ie0 sr Hsr) as [H|[H|[H|H]]]; [tauto|tauto| |tauto].
+      right; right; left. apply (ended_now m m' sr M3 Mn H).
+    - intro H. destruct (ra_cc0 H) as (_ & H2 & H3). auto.
+  Qed.
+
+  Lemma dead_calls s : senders s = 0%nat ->
+    forall i c, nth_error (calls s) i = Some c -> c_phase c = PDone \/ c_phase c = PGone.
+  Proof.
+    intros Hs i c H. destruct (senders0 s Hs) as [_ Hl].
+    pose proof (Hl c (nth_error_In _ _ H)) as L. destruct (c_phase c); try discriminate; auto.
+  Qed.
+  Lemma guard_close_dead s i : senders s = 0%nat -> guard_close s i = s.
+  Proof.
+    intro Hs. unfold guard_close. destruct (nth_error (calls s) i) as [c|] eqn:E; [|reflexivity].
+    destruct (dead_calls s Hs i c E) as [P|P]; rewrite P; reflexivity.
+  Qed.
+  Lemma guard_cancel_dead s i : senders s = 0%nat -> guard_cancel s i = s.
+  Proof.
+    intro Hs. unfold guard_cancel. destruct (nth_error (calls s) i) as [c|] eqn:E; [|reflexivity].
+    destruct (dead_calls s Hs i c E) as [P|P]; rewrite P; reflexivity.
+  Qed.
+
+  Lemma RA_guard_close_st m s i : sim m s -> RA m s -> RA m (guard_close s i).
+  Proof.
+    intros S R. apply (RA_op_gen m m s (guard_close s i) i); try reflexivity; try tauto.
+    - apply OpFr_guard_close, S.
+    - eapply Hrx_of_OpFr; [exact S|apply OpFr_guard_close, S].
+    - apply ARi_guard_close; assumption.
+    - intro H. destruct (ra_cc _ _ R H) as (H1 & H2 & H3). rewrite guard_close_dead by exact H1. auto.
+  Qed.
+  Lemma RA_guard_cancel_st m s i : RA m s -> RA m (guard_cancel s i).
+  Proof.
+    intros R. apply (RA_op_gen m m s (guard_cancel s i) i); try reflexivity; try tauto.
+    - apply OpFr_guard_cancel.
+    - intros j c _ _ _. assert (E : slots (guard_cancel s i) = slots s).
+      { unfold guard_cancel. destruct (nth_error (calls s) i) as [c0|]; [|reflexivity].
+        destruct (c_phase c0); try reflexivity. rewrite set_phase_alt, push_cancel_alt. reflexivity. }
+      unfold rxc. rewrite E. tauto.
+    - apply ARi_guard_cancel; assumption.
+    - intro H. destruct (ra_cc _ _ R H) as (H1 & H2 & H3). rewrite guard_cancel_dead by exact H1. auto.
+  Qed.
+
+  Lemma RA_step m s (o : op) :
+    o <> PollDispatch -> o <> DropDispatch -> sim m s -> next_id s + 1 < two64 -> RA m s ->
+    RA (snd (chk_obs maxif o m (snd (step tp fuel_of s o)))) (fst (step tp fuel_of s o)).
+  Proof.
+    intros N1 N2 S Hw R.
+    destruct (chk_obs_mframe o m (snd (step tp fuel_of s o)) N1) as (MF & Mp & Mn).
+    set (m' := snd (chk_obs maxif o m (snd (step tp fuel_of s o)))) in *.
+    assert (Hcc : m_close_called m = true ->
+              senders (fst (step tp fuel_of s o)) = 0%nat /\ queue (fst (step tp fuel_of s o)) = [] /\
+              cancels (fst (step tp fuel_of s o)) = []).
+    { intro H. destruct (ra_cc _ _ R H) as (H1 & H2 & H3). apply cc_step; assumption. }
+    assert (Env : forall s', s' = fst (step tp fuel_of s o) -> (forall i, o <> PollCall i) ->
+              calls s' = calls s -> inflight s' = inflight s -> timers s' = timers s -> slots s' = slots s ->
+              queue s' = queue s -> cancels s' = cancels s -> terminal s' = terminal s ->
+              dropped s' = dropped s -> RA m' s').
+    { intros s' Es Hn E1 E2 E3 E4 E5 E6 E7 E8. apply (RA_env m m' s s'); try assumption.
+      - rewrite Mp. apply rec_op_polled, Hn.
+      - rewrite Mn. apply rec_op_now_le.
+      - intro H. rewrite Es. apply Hcc, H. }
+    assert (Gen : forall i s', s' = fst (step tp fuel_of s o) ->
+              (forall j, In j (m_polled m') -> j <> i -> In j (m_polled m)) -> m_now m' = m_now m ->
+              OpFr s s' i -> ARi m' s' i -> RA m' s').
+    { intros i s' Es Hp Hn F A. destruct MF. apply (RA_op_gen m m' s s' i); try assumption.
+      - eapply Hrx_of_OpFr; eassumption.
+      - intro H. rewrite Es. apply Hcc, H. }
+    destruct o; try congruence.
+    - (* CloneHandle *)
+      apply Env; try reflexivity; try discriminate; cbn [step fst];
+        destruct (nth_error (handles s) h) as [[|]|]; reflexivity.
+    - apply Env; try reflexivity; try discriminate; cbn [step fst];
+        destruct (nth_error (handles s) h) as [[|]|]; reflexivity.
+    - (* Call *)
+      apply (Gen (length (calls s))); [reflexivity| | | |].
+      + intros j Hj _. rewrite Mp, rec_op_polled in Hj by discriminate. exact Hj.
+      + rewrite Mn. reflexivity.
+      + cbn [step fst]. constructor; try reflexivity; try tauto; try lia. apply lok_app. reflexivity.
+      + intros c' _ Hp. exfalso. rewrite Mp, rec_op_polled in Hp by discriminate.
+        pose proof (sc_range_p _ _ (sim_c _ _ S) _ Hp) as H. rewrite (sc_len _ _ (sim_c _ _ S)) in H. lia.
+    - (* PollCall *)
+      cbn [step] in *. destruct (poll_call s i) as [r s1] eqn:E. cbn [fst snd] in *.
+      apply (Gen i); [reflexivity| | | |].
+      + intros j Hj Hn. rewrite Mp in Hj. cbn [rec_op m_polled upd_m] in Hj.
+        destruct (_ || _) in Hj; [exact Hj|]. apply in_app_or in Hj. destruct Hj as [Hj|[Hj|[]]]; congruence.
+      + rewrite Mn. reflexivity.
+      + pose proof (OpFr_poll_call s i Hw) as F. rewrite E in F. exact F.
+      + intros c' Hc' Hp. rewrite Mp in Hp. exact (ARi_poll_call m s i r s1 S R E c' Hc' Hp).
+    - (* DropCall *)
+      cbn [step fst] in *.
+      assert (R1 : RA m (match option_map c_phase (nth_error (calls s) i) with
+                         | Some PClosing => s | _ => guard_cancel (guard_close s i) i end)).
+      { destruct (option_map c_phase (nth_error (calls s) i)) as [[]|]; try exact R;
+          apply RA_guard_cancel_st, RA_guard_close_st; assumption. }
+      eapply (RA_env m m'); [exact MF|rewrite Mp; apply rec_op_polled; discriminate
+                            |rewrite Mn; apply rec_op_now_le|reflexivity..| |exact R1].
+      intro H. apply (ra_cc _ _ R1 H).
+    - (* GuardClose *)
+      cbn [step fst] in *.
+      assert (R1 : RA m (match option_map c_phase (nth_error (calls s) i) with
+                         | Some PClosing => s | _ => guard_close s i end)).
+      { destruct (option_map c_phase (nth_error (calls s) i)) as [[]|]; try exact R;
+          apply RA_guard_close_st; assumption. }
+      eapply (RA_env m m'); [exact MF|rewrite Mp; apply rec_op_polled; discriminate
+                            |rewrite Mn; apply rec_op_now_le|reflexivity..| |exact R1].
+      intro H. apply (ra_cc _ _ R1 H).
+    - (* GuardCancel *)
+      cbn [step fst] in *. pose proof (RA_guard_cancel_st m s i R) as R1.
+      eapply (RA_env m m'); [exact MF|rewrite Mp; apply rec_op_polled; discriminate
+                            |rewrite Mn; apply rec_op_now_le|reflexivity..| |exact R1].
+      intro H. apply (ra_cc _ _ R1 H).
+    - (* Advance *)
+      apply Env; try reflexivity; discriminate.
+    - (* Tr *)
+      apply Env; try reflexivity; discriminate.
   Qed.
 End OpFrames.
 
